@@ -1520,9 +1520,14 @@ def stepAfter (isQuant : Bool) : M (Sum Bool Unit) := do
     pure (.inl isQuant)
 
 /-- is the `(` (consumed) the start of `(?P=name)` under RE2? -/
-def stepIsPythonRef (o : Opts) : M Bool := do
+def stepIsPythonRefCore (o : Opts) : M Bool := do
   let cr ← charsRight E
   andM (o.re2 ∧ cr ≥ 3) (andMM (rcIs E 0 63) (andMM (rcIs E 1 80) (rcIs E 2 61)))
+
+/-- `p.useRE2() && !p.ignoreNextParen && p.charsRight() >= 3 && …` (/repo debc02b: not while the parser
+    waits for the parenthesis that opens the condition of `(?(…)yes|no)`) -/
+def stepIsPythonRef (o : Opts) : M Bool := fun s =>
+  if s.ignoreNextParen then .ok false s else stepIsPythonRefCore E o s
 
 /-- `(` in `scanRegex`, other than `(?P=` -/
 def stepOpen (isQuant : Bool) : M (Sum Bool Unit) := do
